@@ -22,7 +22,7 @@ TECHNIQUE = ("property-based testing (Hypothesis) with recording privacy plug-in
 RULE = ("case = 1..3 sessions in one process, each = authPriv user (MD5 | SHA-1, auth and privacy passwords 1..64 octets, plug-in "
         "verifstream | verifblock) x engine id x optional context engine id / name x operation {get, multiget, getnext, set, "
         "multiset, walk, bulkwalk} with marker strings in SET values and context name; sessions may reuse user name and "
-        "engine with a rotated privacy password or the other hash; non-trivial = a SET carrying a marker, a payload of >= 2 "
+        "engine with a rotated privacy password or the other hash; plus the boundary of an EMPTY privacy password (nothing may leave in clear); non-trivial = a SET carrying a marker, a payload of >= 2 "
         "keystream blocks, or >= 2 sessions sharing user name and engine; distinct = SHA-1 of canonical JSON case")
 ASSUMPTIONS = [
     "the privacy key is the privacy password localised with the user's authentication hash to the authoritative engine id (RFC 3414 2.6 / A.2)",
@@ -166,7 +166,45 @@ def run_session(s, classes):
     return None, None
 
 
+def run_empty_priv(case) -> Result:
+    """boundary of 'all privacy passwords': Priv(b"", method).  Whatever the client does with such credentials, a
+    request must not leave with its scoped PDU in clear."""
+    from puresnmp import V3, Auth, Priv
+
+    s = case["sessions"][0]
+    agent = vagent.Agent(dict(DB), users=[vagent.User(s["user"].encode(), algo=s["algo"], auth_pw=bytes.fromhex(s["auth_pw"]))],
+                         engine_id=bytes.fromhex(s["engine_id"]), request_cap=10)
+    seen = []
+
+    async def sender(endpoint, data, timeout=None, retries=None, loop=None):
+        seen.append(bytes(data))
+        return agent.handle(bytes(data))
+
+    creds = V3(s["user"], Auth(bytes.fromhex(s["auth_pw"]), s["algo"]), Priv(b"", s["priv"]))
+    client = vworld.Client("192.0.2.1", creds, sender=sender)
+    secret = MARK + b"/empty-priv-password"
+    outcome = "returned"
+    try:
+        vworld.run(client.set(vworld.OID(SCALAR), vworld.make_value(vber.T_OCTETS, secret)))
+    except Exception as e:  # noqa  -- refusing such credentials is fine
+        outcome = type(e).__name__
+    classes = ["empty_priv_password", s["priv"], "outcome=" + outcome]
+    for raw in seen:
+        try:
+            m = vber.parse_message(raw)
+        except vber.BerError:
+            continue
+        if m.get("engine_id") == b"":
+            continue
+        if "pdu" in m or MARK in raw:
+            return Result("credentials with an (empty-password) privacy entry: a request left with its scoped PDU in clear "
+                          "(msgFlags %#04x): %s" % (m["flags"], raw.hex()[:300]), True, classes)
+    return Result(None, True, classes)
+
+
 def run_case(case) -> Result:
+    if case.get("kind") == "empty_priv":
+        return run_empty_priv(case)
     classes = set()
     sessions = case["sessions"]
     keyset = [(s["user"], s["engine_id"]) for s in sessions]
@@ -210,6 +248,8 @@ def session(draw):
 
 @st.composite
 def cases(draw):
+    if draw(st.integers(0, 24)) == 0:
+        return dict(kind="empty_priv", sessions=[draw(session())])
     n = draw(st.sampled_from([1, 2, 2, 3]))
     sessions = [draw(session()) for _ in range(n)]
     for i in range(1, n):
